@@ -294,8 +294,8 @@ func init() {
 			nextBytes, _ := os.ReadFile(filepath.Join(d, "kvass-shard.json"))
 			// (2) file-size limit at every byte offset
 			step := 1
-			if len(nextBytes) > 2000 && !c.Thorough() {
-				step = 97
+			if len(nextBytes) > 2000 && !(c.Thorough() && pr.prev == "b-one") {
+				step = 97 // every offset of the 200-target store only for one pair (thorough)
 			}
 			for n := 0; n <= len(nextBytes); n += step {
 				d := fresh()
